@@ -149,7 +149,7 @@ def gen_argv(rng):
         v = mag * complex(math.cos(math.radians(ph)), math.sin(math.radians(ph)))
         argv.append('--excitation-pulse=%d' % (k + 1))
         argv.append('--excitation-voltage=%s' % ('%r' % v).strip('()'))
-    lk = rng.choice(['none', 'imp', 'imp2', 'rlc', 'trap', 'laplace', 'skin', 'coat'])
+    lk = rng.choice(['none', 'imp', 'imp2', 'rlc', 'trap', 'laplace', 'skin', 'coat'] + (['skin', 'skin', 'coat'] if kind in ('taper', 'helix') else []))
     if lk == 'imp':
         argv += ['--load=%g%+gj' % (rng.uniform(1, 100), rng.uniform(-50, 50)), '--attach-load=1,1']
     elif lk == 'imp2':
@@ -276,6 +276,15 @@ def property_on_impl(argv, version):
     nseg = sum(w[0] for w in rd['wires'])
     if nseg != sum(w.n_segments for w in m.geo):
         return 'emulated wires have %d segments in total, model has %d' % (nseg, sum(w.n_segments for w in m.geo))
+    # loads given as impedances: one answer per load and pulse, the value the model uses for that pulse
+    if rd['loads'] and all(isinstance(x[1], complex) for x in rd['loads']):
+        want = [(p.idx + 1, complex(l.impedance(m.f, p))) for l in m.loads for p in l.pulses]
+        got = rd['loads']
+        if len(want) != len(got):
+            return 'the input lists %d loads, the model has %d load/pulse pairs' % (len(got), len(want))
+        for (pw, zw), (pg, zg) in zip(want, got):
+            if pw != pg or abs(zw - zg) > 2e-5 * max(abs(zw), 1e-30) + 1e-12:
+                return 'load answer "%d, %g, %g" for a load of %r ohm on pulse %d' % (pg, zg.real, zg.imag, zw, pw)
     return None
 
 
